@@ -69,6 +69,14 @@ func Build(seed int64, idx int, tier string) (*Case, error) {
 	ctx := &fw.Ctx{Tier: tier, Seed: seed, Prop: "C01"}
 	r := ctx.Rng(idx, "c01")
 	prof := fed.RandomProfile(r)
+	base := 2000
+	if tier == fw.Thorough {
+		base = 40000
+	}
+	if idx >= base {
+		prof.IfaceRel = idx%2 == 0
+		prof.Requires2 = idx%3 == 0
+	}
 	l := fed.GenLayout(r, prof)
 	superGql, err := gqlparser.LoadSchema(&gast.Source{Name: "super", Input: l.SuperSDL})
 	if err != nil {
